@@ -159,7 +159,8 @@ class Evaluator:
 
     def _assign(self, target, value_expr, val, env):
         if isinstance(target, ast.Name):
-            env[target.id] = val
+            # a declared input bound from a non-affine source (`tb_lineno = int(text)`) keeps its declared denotation
+            env[target.id] = val if val is not None else self.deno.get(target.id)
         elif isinstance(target, (ast.Tuple, ast.List)):
             if isinstance(value_expr, (ast.Tuple, ast.List)) and len(value_expr.elts) == len(target.elts):
                 vals = [self.aeval(v, env) for v in value_expr.elts]
